@@ -403,9 +403,11 @@ structure Env where
   upAtClose : Bool := true
   /-- `_sessionInfo.find(sid)` when the Connection decision is taken -/
   sess : Option SessionInfo := some {}
-  /-- upgrade arm: the session's read buffer holds bytes behind the upgrade request (`!it->second.buffer.empty()`), so the
-      arm feeds them to `onUpgradedData` on the worker thread -/
-  bufferedAtUpgrade : Bool := false
+  /-- upgrade arm: how many passes of the drain loop find something to drain (`it != end && !buffer.empty() &&
+      _upgradedSessions.count(sid) > 0`): the bytes that arrived behind the upgrade request, plus every batch of reads the I/O
+      thread queued behind them (upgrade hold, `_upgradePending`) while an earlier pass was inside `onUpgradedData`.  0 = the
+      first pass finds the buffer empty, the session gone or not marked upgraded: the hold is released, nothing is drained. -/
+  drainChunks : Nat := 0
 
 def Env.up : Env := {}
 
@@ -417,9 +419,9 @@ structure Server where
   upgradeHook : Req → Seam (Option Resp) := fun _ => .ret none
   /-- `onResponseSuppressed` (virtual) -/
   suppressHook : Req → Resp → Seam Bool := fun _ _ => .ret false
-  /-- `onUpgradedData` (virtual) as called by the buffer drain of the upgrade arm: returns, or throws (WebSocketServer reaches
-      the user's message callback from here) -/
-  drainHook : Seam Unit := .ret ()
+  /-- `onUpgradedData` (virtual) as called by pass number `k` of the upgrade arm's drain loop: returns, or throws
+      (WebSocketServer reaches the user's message callbacks from here) -/
+  drainHook : Nat → Seam Unit := fun _ => .ret ()
 
 /-- what one call of `processHttpRequest` hands to the engine -/
 inductive Outcome where
@@ -581,18 +583,29 @@ def errorArm (env : Env) (status : Nat) : List Call :=
 def seamThrew (env : Env) (std : Bool) : List Call :=
   if std || Gen.HttpRespond.errCatchesAll then errorArm env Gen.HttpRespond.errDefaultStatus else []
 
-/-- the buffer drain of the upgrade arm, AFTER the upgrade response was handed to the transport: bytes that arrived behind the
-    upgrade request go to `onUpgradedData`.  Repaired code (`upgradeDrainGuarded`): the call has its own `catch (...)` that ends
-    the connection through `closeSession` (guard `_transport && !_shutdown`) — no second response.  Unrepaired code: the throw
+/-- the drain loop of the upgrade arm, AFTER the upgrade response was handed to the transport: `n` passes still find bytes,
+    this is pass number `k`.  Each pass hands the whole session buffer to `onUpgradedData`.  Repaired code
+    (`upgradeDrainGuarded`): the call has its own `catch (...)` that ends the connection through `closeSession` (guard
+    `_transport && !_shutdown`) and LEAVES the loop — no second response, no further hook call.  Unrepaired code: the throw
     reaches the function's error arm, which sends a 500 behind the 101. -/
-def drainCalls (srv : Server) (env : Env) : List Call :=
-  if !env.bufferedAtUpgrade then []
-  else
-    match srv.drainHook with
-    | .ret _ => []
+def drainLoop (hook : Nat → Seam Unit) (env : Env) : Nat → Nat → List Call
+  | 0, _ => []
+  | n + 1, k =>
+    match hook k with
+    | .ret _ => drainLoop hook env n (k + 1)
     | .threw std =>
       if Gen.HttpRespond.upgradeDrainGuarded then (if env.upAtClose then [.close] else [])
       else seamThrew env std
+
+def drainCalls (srv : Server) (env : Env) : List Call := drainLoop srv.drainHook env env.drainChunks 0
+
+/-- how often the drain loop calls `onUpgradedData`: once per pass, up to and including the first pass whose call throws -/
+def drainHookCalls (hook : Nat → Seam Unit) : Nat → Nat → Nat
+  | 0, _ => 0
+  | n + 1, k =>
+    match hook k with
+    | .ret _ => 1 + drainHookCalls hook n (k + 1)
+    | .threw _ => 1
 
 /-- the normal send block: guarded Send; Close if the completion reported failure or the response asked for close -/
 def normalSend (env : Env) (wire : Bytes) (shouldClose : Bool) : List Call :=
